@@ -5,8 +5,8 @@
 void h_dpivotL(void)
 {
     int jcol;
-#if defined(PLV_U1)
-    /* variant PLV_U1: the contract requires u == 1.0; 1.0 has exactly one bit pattern, so passing the literal is the same
+#if defined(PLV_U1A) || defined(PLV_U1B)
+    /* variants PLV_U1A/B: the contract requires u == 1.0; 1.0 has exactly one bit pattern, so passing the literal is the same
      * input set - it only lets the tool fold the constant operand of thresh = u * pivmax before bit-blasting */
     double u = 1.0;
 #else
